@@ -98,7 +98,7 @@ def chains_for(source):
         out += [p + c for p in ("MF", "OF", "XF") for c in STAGES]
         return out
     if source in ("endless", "bigrange"):
-        return ["", "M", "F", "MF", "X", "O"]
+        return ["", "M", "F", "MF", "X", "O", "OFM", "FMF", "XF"]
     if source in EFFIN_SOURCES or source in ("dequeref", "cloned"):
         return ["", "M", "F", "X", "MF"]
     if source in PRE_SOURCES:
